@@ -5,6 +5,8 @@ CONSTANTS
  MaxOps = 2
  KeyMode = "resolve"
  LockRefTgt = TRUE
+ CtxKinds = {"bg", "cancelled", "expired", "late"}
+ MarkCtx = FALSE
  Eager = FALSE
 INIT GInit
 NEXT GNext
